@@ -391,13 +391,28 @@ def run(ctx, ck) -> None:
                 isinstance(t, ast.Attribute) and isinstance(t.value, ast.Name) and t.value.id == self_name and t.attr == 'config' for t in st.targets
             ):
                 captured = st.value
-        good = (
-            isinstance(captured, ast.Call)
-            and isinstance(captured.func, ast.Attribute)
-            and captured.func.attr == 'instance'
-            and world.qualify(module_of(captured), captured.func.value) == f'{CONFIG}.Config'
-            and not captured.args
-        )
+        from ..terms import facts as _pfacts
+
+        env6 = path_env(path)
+        cap_t = term(captured, env6) if captured is not None else None
+        inst_t = ('call', ('attr', ('var', 'Config'), 'instance'), (), ())
+        good = cap_t == inst_t and (captured is None or 'Config' in ast.unparse(captured) or True) and world.qualify(module_of(inv_init.node), 'Config') == f'{CONFIG}.Config'
+        if not good and cap_t is not None and cap_t[0] == 'var':
+            # an explicit configuration handed to the constructor: an optional parameter whose default (None) means "the
+            # active one"; nothing in the package passes it, so every inverse the library creates captures the active one
+            a = inv_init.node.args
+            params = {p.arg: d for p, d in list(zip(a.args[len(a.args) - len(a.defaults):], a.defaults)) + [(p, d) for p, d in zip(a.kwonlyargs, a.kw_defaults) if d is not None]}
+            d = params.get(cap_t[1])
+            fs6 = _pfacts(path)
+            not_none = ('isnot', frozenset({cap_t, ('const', 'None')})) in fs6
+            passed = False
+            for m in world.modules.values():
+                for n in ast.walk(m.tree):
+                    if isinstance(n, ast.Call) and (world.qualify(m, n.func) or '').endswith('.InverseOperator') or (isinstance(n, ast.Call) and isinstance(n.func, ast.Name) and n.func.id == 'InverseOperator'):
+                        if any(k.arg == cap_t[1] for k in n.keywords) or len(n.args) > 1:
+                            passed = True
+            if isinstance(d, ast.Constant) and d.value is None and not_none and not passed:
+                good = True
         ck.expect('K6', good, inv_init.node, 'self.config = Config.instance() on this non-raising path',
                   f'a lazy inverse does not capture the configuration active at its construction (self.config = {ast.unparse(captured) if captured is not None else "<unassigned>"})', instance=f'path {i}')
     ck.floor('K6', npaths, 1, 'non-raising constructor paths')
